@@ -903,6 +903,26 @@ pub fn run(ctx: &mut Ctx, dom: &str, a: &[Arg]) {
                 modules(ctx, &g, &bi);
             }
         }
+        "mbihuge" => {
+            // a boot information whose header declares a total size up to 4 GiB: that many (untouched, zero) bytes, the
+            // given 8 bytes at its end
+            let (h8, l8) = (a[0].b(), a[1].b());
+            let total = u32::from_le_bytes([h8[0], h8[1], h8[2], h8[3]]) as usize;
+            match Guarded::sparse(total.max(16), h8, if total >= 16 { l8 } else { &[] }) {
+                None => ctx.ln("load", "SKIP"),
+                Some(g) => {
+                    let r = guard(|| unsafe { BootInformation::load(g.ptr.cast::<BootInformationHeader>()) });
+                    ctx.ln(
+                        "load",
+                        match r {
+                            Err(()) => "PANIC".to_string(),
+                            Ok(Err(e)) => load_err(e),
+                            Ok(Ok(bi)) => format!("VAL total={}", bi.total_size()),
+                        },
+                    );
+                }
+            }
+        }
         "iters" => {
             let g = Guarded::new(a[0].b(), 0, ctx.place_end);
             if let Some(bi) = load(ctx, &g) {
